@@ -37,6 +37,8 @@
      LateConnect          admission inserts the stream, connect is only dispatched after its first poll
      BroadcastSkipsSender a handler's broadcast is not written to the originating client
      UnicastToAll         a unicast is written to every stream
+     FlushWriteMayTruncate a flushed message may reach a receiver only in part (e.g. write_all failing in
+                          mid-frame on a socket that was left non-blocking, the error being ignored)
      PingSkippedWhenActive the heartbeat ping is not sent to a stream that delivered a message in the same
                           iteration, although liveness is judged by the last pong alone
 
@@ -62,7 +64,7 @@ CONSTANTS Clients,       \* client ids (small positive integers; one id = one so
 
 NoClient == 0        \* client ids are compared, never computed with: the MC configs use model values
 DevNames == {"InvocationInversion", "DoubleDisconnect", "RemoveOnNone", "LateConnect",
-             "BroadcastSkipsSender", "UnicastToAll", "PingSkippedWhenActive"}
+             "BroadcastSkipsSender", "UnicastToAll", "PingSkippedWhenActive", "FlushWriteMayTruncate"}
 ASSUME Dev \subseteq DevNames
 ASSUME Reply["D"] # "uni"         \* AsyncStream::send asserts `connected`
 
@@ -276,7 +278,17 @@ AdmitEff(c) ==
   /\ IF "LateConnect" \in Dev THEN UNCHANGED <<dseq, q>> ELSE Dispatch("C", c, 0)
 
 \* ---- loop: flush phase -----------------------------------------------------
-WriteTo(S, msg) == sentTo' = [c \in Clients |-> IF c \in S THEN Append(sentTo[c], msg) ELSE sentTo[c]]
+\* A flush is modelled as atomic AND COMPLETE: send_raw's write_all blocks until the whole frame is handed to
+\* the kernel, so every stream written to gets the entire message (the obligation FlushedCompletely below;
+\* what the reference clients check frame by frame, length and hash).  The deviation shows what the
+\* delivery properties say when that fails for some receiver.
+Garbled(msg) == [msg EXCEPT !.k = "garbled"]
+WriteTo(S, msg) ==
+  IF "FlushWriteMayTruncate" \in Dev
+  THEN \E T \in SUBSET S :
+         sentTo' = [c \in Clients |-> IF c \in T THEN Append(sentTo[c], Garbled(msg))
+                                     ELSE IF c \in S THEN Append(sentTo[c], msg) ELSE sentTo[c]]
+  ELSE sentTo' = [c \in Clients |-> IF c \in S THEN Append(sentTo[c], msg) ELSE sentTo[c]]
 
 FlushUniPre(msg) == msg.k = "uni"
 FlushUniEff(msg) ==
@@ -521,6 +533,8 @@ UnicastOnlyAddressee ==
 BroadcastExactlyCurrentMembers ==
   \A f \in flog : f.msg.k = "bc" =>
         \A c \in Clients : CountMsg(sentTo[c], f.msg) = IF c \in f.to THEN 1 ELSE 0
+\* what was written to a stream is the whole message
+FlushedCompletely == \A c \in Clients : \A i \in DOMAIN sentTo[c] : sentTo[c][i].k \in {"uni", "bc"}
 \* everything a client was sent went through a flush
 NothingUnflushed == \A c \in Clients : \A i \in DOMAIN sentTo[c] : \E f \in flog : f.msg = sentTo[c][i]
 
@@ -550,7 +564,7 @@ DispatchInvs == /\ ConnectOnce_D /\ ConnectBeforeMessages_D /\ MessageOncePerCli
                 /\ OnlyAdmittedDispatched
 InvocationInvs == /\ ConnectOnce_I /\ ConnectBeforeMessages_I /\ MessageOncePerClientOrder_I
                   /\ DisconnectOnce_I /\ NothingAfterDisconnect_I /\ InvokedWasDispatched
-DeliveryInvs == UnicastOnlyAddressee /\ BroadcastExactlyCurrentMembers /\ NothingUnflushed
+DeliveryInvs == UnicastOnlyAddressee /\ BroadcastExactlyCurrentMembers /\ NothingUnflushed /\ FlushedCompletely
 
 \* liveness: a shutdown signal makes run() return
 ShutdownEndsRun == (shut = "sent") ~> (lpc = "done")
